@@ -301,11 +301,15 @@ def _write_if_changed(path, txt):
 
 def run(repo=None):
     """regenerate the Gen files; call while holding core.LeanLock; returns the status dict"""
+    from . import translate_loops
     real_src, float_src, status = generate(repo)
+    loops_src, loops_status = translate_loops.generate(repo)  # route T2: imperative kernels
+    status.update(loops_status)
     d = os.path.join(core.LEAN, "Skc", "Gen")
     os.makedirs(d, exist_ok=True)
     ch = [_write_if_changed(os.path.join(d, "KernelsReal.lean"), real_src),
-          _write_if_changed(os.path.join(d, "KernelsFloat.lean"), float_src)]
+          _write_if_changed(os.path.join(d, "KernelsFloat.lean"), float_src),
+          _write_if_changed(os.path.join(d, "Loops.lean"), loops_src)]
     _write_if_changed(os.path.join(d, "status.json"), json.dumps(status, indent=1, sort_keys=True))
     return status, any(ch)
 
